@@ -271,7 +271,7 @@ pub fn run_case(f: &(dyn Fn(&mut Gen) -> Verdict + Sync), tape: &[u32], want_des
         Ok(v) => (v, desc),
         Err(p) => (
             Verdict::Fail {
-                msg: format!("harness-level panic while running case: {}", p),
+                msg: format!("HARNESS: panic outside the guarded calls while running a case: {}", p),
                 signature: None,
             },
             desc,
@@ -524,7 +524,7 @@ pub fn exhaustive_suite(
             if let Err(p) = guard(|| f(i, &mut acc)) {
                 acc.fail(
                     json!({"kind": "params", "outer": i}),
-                    format!("panic inside exhaustive item {}: {}", i, p),
+                    format!("HARNESS: panic outside the guarded calls in exhaustive item {}: {}", i, p),
                 );
             }
             acc
@@ -573,7 +573,7 @@ pub fn simple_suite(name: &str, exhaustive: bool, f: impl FnOnce(&mut Acc)) -> S
     STOP.store(false, Ordering::SeqCst);
     let mut acc = Acc::default();
     if let Err(p) = guard(|| f(&mut acc)) {
-        acc.fail(json!({"kind": "params"}), format!("panic: {}", p));
+        acc.fail(json!({"kind": "params"}), format!("HARNESS: panic outside the guarded calls: {}", p));
     }
     let mut rep = SuiteReport {
         name: name.to_string(),
@@ -632,6 +632,7 @@ pub fn write_replay(ctx: &Ctx, fl: &Failure) -> PathBuf {
 /// Print verdict lines, write the evidence file and return the process exit code.
 pub fn finish(ctx: &Ctx, reports: Vec<SuiteReport>, summary: Summary) -> i32 {
     let mut violations = 0;
+    let mut harness_errors = 0;
     let mut known_hits = 0;
     let mut evaluations = 0u64;
     let mut distinct = 0u64;
@@ -663,6 +664,16 @@ pub fn finish(ctx: &Ctx, reports: Vec<SuiteReport>, summary: Summary) -> i32 {
             sj.insert(k.clone(), v.clone());
         }
         if let Some(fl) = &r.failure {
+            if fl.msg.starts_with("HARNESS") {
+                // a panic that did not come out of a guarded call into the code under test is a bug
+                // of the harness: inconclusive, never a verdict about the code
+                harness_errors += 1;
+                let path = write_replay(ctx, fl);
+                println!("HARNESS-ERROR {} / {}: {} (case saved to {})", ctx.prop, r.name, fl.msg, path.display());
+                sj.insert("harness_error".into(), json!(fl.msg));
+                suites_json.push(Value::Object(sj));
+                continue;
+            }
             let is_known = fl
                 .signature
                 .as_ref()
@@ -733,6 +744,8 @@ pub fn finish(ctx: &Ctx, reports: Vec<SuiteReport>, summary: Summary) -> i32 {
     );
     if violations > 0 {
         1
+    } else if harness_errors > 0 {
+        2
     } else {
         0
     }
